@@ -17,9 +17,9 @@ ASSUMPTIONS = ["own longest-path DP (hv/ref/cp.py::longest_path) trusted", "grap
 FLOAT_KEYS = ["files"]          # fractional-time-unit workload class (hv/shard.py)
 PLAN = {"quick": {"shards": 16, "cases": 480, "timeout": 900}, "thorough": {"shards": 16, "cases": 5000, "timeout": 3400}}
 FLOORS = {"quick": {"distinct_nontrivial": 100, "paths_checked": 1500, "reweighted_paths": 1000, "critical_path.post": 1500,
-                    "path_changed_after_reweight": 100, "total_conserving_reweights": 300},
+                    "path_changed_after_reweight": 100, "total_conserving_reweights": 300, "paths_rechecked_after_overlay": 150},
           "thorough": {"distinct_nontrivial": 1500, "paths_checked": 40000, "reweighted_paths": 30000, "critical_path.post": 40000,
-                       "path_changed_after_reweight": 3000, "total_conserving_reweights": 9000}}
+                       "path_changed_after_reweight": 3000, "total_conserving_reweights": 9000, "paths_rechecked_after_overlay": 3000}}
 
 
 def setup(ctx: Any) -> None:
@@ -111,6 +111,16 @@ def run_case(case: Dict[str, Any], ctx: Any) -> core.CaseResult:
             res.sample = {"window": [A.annotation, str(A.instance)], "nodes": len(g.node_list), "edges": g.number_of_edges(),
                           "path_len": len(g.critical_path_nodes), "path_weight": sum(e.weight for e in g.critical_path_edges_set),
                           "makespan": makespan}
+        if rnd.random() < 0.4:
+            # a read-only consumer in between: the overlay is written from the graph; the reported path and sets must still be
+            # exact afterwards (and for the what-ifs that follow)
+            import os
+            out_dir = os.path.join(A.workdir, f"ov_{rnd.randrange(10 ** 6)}")
+            oko, _ = drv.guard(res, "overlay_critical_path_analysis", A.ta.overlay_critical_path_analysis, A.rank, g, out_dir,
+                               rnd.random() < 0.3, rnd.random() < 0.3)
+            if oko:
+                res.counters["paths_rechecked_after_overlay"] += 1
+                check_path(g, res, f"{tag} after an overlay was written", makespan)
         elist = list(g.edges)
         for k in range(n_rw):
             before = list(g.critical_path_nodes)
